@@ -63,12 +63,6 @@ def one_input(data: bytes):
     COUNT["n"] += 1
     text, mode = decode(data)
     r = c01.check_one(CTX, text, mode)
-    if r is not None and r[0].get("kind") == "timeout" and \
-            "LINKS_RE.sub" in r[0].get("where", ""):
-        # the listed finding C01-links-regex-quartic: counted, the campaign
-        # goes on to whatever lies behind it
-        COUNT["known_links_regex"] = COUNT.get("known_links_regex", 0) + 1
-        return
     if r is not None:
         sig, what = r
         with open(OUT, "w") as f:
